@@ -272,6 +272,7 @@ impl<'a> ValidationState<'a> {
 
 impl CDDL<'_> {
   /// Validate the given document against the CDDL definition
+  #[cfg(feature = "json")]
   fn validate_json(
     &self,
     document: &[u8],
@@ -288,11 +289,12 @@ impl CDDL<'_> {
     #[cfg(feature = "additional-controls")]
     let mut jv = JSONValidator::new(self, json, enabled_features);
     #[cfg(not(feature = "additional-controls"))]
-    let mut jv = JSONValidator::new(&cddl, json);
+    let mut jv = JSONValidator::new(self, json);
 
     jv.validate().map_err(|e| e.into())
   }
 
+  #[cfg(feature = "cbor")]
   fn validate_cbor(
     &self,
     document: &[u8],
@@ -305,7 +307,11 @@ impl CDDL<'_> {
   ) -> Result<(), Box<dyn Error>> {
     let cbor = decode_cbor(document).map_err(|e| e.to_string())?;
 
+    #[cfg(feature = "additional-controls")]
     let mut cv = CBORValidator::new(self, cbor, enabled_features);
+    #[cfg(not(feature = "additional-controls"))]
+    let mut cv = CBORValidator::new(self, cbor);
+
     cv.validate().map_err(|e| e.into())
   }
 }
